@@ -13,6 +13,336 @@
 import OpmVerif.Proofs.DeckRoundTrip
 import OpmVerif.Proofs.LexSafe
 
+namespace OpmVerif.RawKw
+open OpmVerif.Lex OpmVerif.Tok OpmVerif.Scan OpmVerif.DeckWrite
+
+/-! ### two raw keywords that differ only in the spelling of their records -/
+
+/-- the raw keyword with its records replaced. -/
+def Kw.setRecs (k : Kw) (r : List (List Bytes)) : Kw := { k with records := r }
+
+theorem setRecs_self (k : Kw) : k.setRecs k.records = k := rfl
+
+theorem terminate_setRecs (k : Kw) (r : List (List Bytes)) (h : r.length = k.records.length) :
+    (k.setRecs r).terminate = k.terminate.setRecs r := by
+  obtain ⟨st, raw, recs, ms, fs, nt, ct, tf, fin⟩ := k
+  simp only at h
+  unfold Kw.terminate Kw.setRecs
+  cases st <;> simp only [h] <;> (try rfl) <;> split <;> rfl
+
+theorem terminate_records_eq (k : Kw) : k.terminate.records = k.records := terminate_records k
+
+theorem addRecord_setRecs (k : Kw) (r : List (List Bytes)) (t t' : List Bytes) (h : r.length = k.records.length)
+    (ht : (t.length > 0) ↔ (t'.length > 0)) :
+    (k.setRecs r).addRecord t' = (k.addRecord t).setRecs (r ++ [t']) := by
+  unfold Kw.addRecord Kw.setRecs
+  by_cases h1 : t.length > 0
+  · have h2 : t'.length > 0 := ht.mp h1
+    simp only [h1, h2, ↓reduceIte, List.length_append, List.length_cons, List.length_nil, h]
+    split <;> rfl
+  · have h2 : ¬ t'.length > 0 := fun x => h1 (ht.mpr x)
+    simp only [h1, h2, ↓reduceIte, List.length_append, List.length_cons, List.length_nil, h]
+    split <;> rfl
+
+theorem canComplete_setRecs (k : Kw) (r : List (List Bytes)) (h : r.length = k.records.length) :
+    (k.setRecs r).canComplete = k.canComplete := by
+  unfold Kw.canComplete Kw.setRecs
+  simp only [h]
+
+theorem setRecs_fields (k : Kw) (r : List (List Bytes)) :
+    (k.setRecs r).finished = k.finished ∧ (k.setRecs r).raw = k.raw ∧ (k.setRecs r).records = r := ⟨rfl, rfl, rfl⟩
+
+theorem setRecs_setRecs (k : Kw) (r r' : List (List Bytes)) : (k.setRecs r).setRecs r' = k.setRecs r' := rfl
+
+/-- the outcome of one step on a keyword whose records were replaced, in terms of the outcome
+on the original: same control flow, the records carried along. -/
+def Step.mapRecs (f : Kw → Kw) : Step → Step
+  | .cont k b g => .cont (f k) b g
+  | .done k u => .done (f k) u
+  | .err => .err
+
+theorem afterExtend_setRecs (k : Kw) (r : List (List Bytes)) (h : r.length = k.records.length) (buf : Bytes) :
+    afterExtend (k.setRecs r) buf =
+      (afterExtend k buf).mapRecs (fun kf => kf.setRecs (r ++ kf.records.drop k.records.length)) := by
+  have hdrop0 : ∀ (x : Kw), x.records = k.records → x.setRecs (r ++ x.records.drop k.records.length) = x.setRecs r := by
+    intro x hx; rw [hx]; simp
+  unfold afterExtend
+  simp only
+  by_cases ht : isTerminator buf = true
+  · simp only [ht, ↓reduceIte, true_and, terminate_setRecs k r h]
+    have hfin : (k.terminate.setRecs r).finished = k.terminate.finished := rfl
+    rw [hfin]
+    by_cases hf : k.terminate.finished = true
+    · simp only [hf, ↓reduceIte, Step.mapRecs]
+      rw [hdrop0 k.terminate (terminate_records k)]
+    · simp only [hf, Bool.false_eq_true, ↓reduceIte]
+      by_cases hr : isTerminatedRecordString buf = true
+      · simp only [hr, ↓reduceIte]
+        cases hraw : rawRecord buf.dropLast with
+        | none => simp only [Step.mapRecs]
+        | some toks =>
+          simp only
+          have hl : r.length = k.terminate.records.length := by rw [terminate_records]; exact h
+          rw [addRecord_setRecs k.terminate r toks toks hl Iff.rfl]
+          have hfin2 : ((k.terminate.addRecord toks).setRecs (r ++ [toks])).finished = (k.terminate.addRecord toks).finished := rfl
+          rw [hfin2]
+          have hrec : (k.terminate.addRecord toks).records.drop k.records.length = [toks] := by
+            rw [addRecord_records, terminate_records]; simp
+          by_cases hf2 : (k.terminate.addRecord toks).finished = true
+          · simp only [hf2, ↓reduceIte, Step.mapRecs, hrec]
+          · simp only [hf2, Bool.false_eq_true, ↓reduceIte, Step.mapRecs, hrec]
+      · simp only [hr, Bool.false_eq_true, ↓reduceIte, Step.mapRecs]
+        rw [hdrop0 k.terminate (terminate_records k)]
+  · simp only [ht, Bool.false_eq_true, ↓reduceIte, false_and]
+    by_cases hr : isTerminatedRecordString buf = true
+    · simp only [hr, ↓reduceIte]
+      cases hraw : rawRecord buf.dropLast with
+      | none => simp only [Step.mapRecs]
+      | some toks =>
+        simp only
+        rw [addRecord_setRecs k r toks toks h Iff.rfl]
+        have hfin2 : ((k.addRecord toks).setRecs (r ++ [toks])).finished = (k.addRecord toks).finished := rfl
+        rw [hfin2]
+        have hrec : (k.addRecord toks).records.drop k.records.length = [toks] := by
+          rw [addRecord_records]; simp
+        by_cases hf2 : (k.addRecord toks).finished = true
+        · simp only [hf2, ↓reduceIte, Step.mapRecs, hrec]
+        · simp only [hf2, Bool.false_eq_true, ↓reduceIte, Step.mapRecs, hrec]
+    · simp only [hr, Bool.false_eq_true, ↓reduceIte, Step.mapRecs]
+      rw [hdrop0 k rfl]
+
+theorem terminate_recs_ext (k : Kw) : ∃ add, k.terminate.records = k.records ++ add := ⟨[], by rw [terminate_records]; simp⟩
+
+/-- a step only appends records. -/
+def StepExt (k : Kw) : Step → Prop
+  | .cont k2 _ _ => ∃ add, k2.records = k.records ++ add
+  | .done k2 _ => ∃ add, k2.records = k.records ++ add
+  | .err => True
+
+theorem afterExtend_ext (k : Kw) (buf : Bytes) : StepExt k (afterExtend k buf) := by
+  unfold afterExtend
+  simp only
+  by_cases ht : isTerminator buf = true
+  · simp only [ht, ↓reduceIte, true_and]
+    by_cases hf : k.terminate.finished = true
+    · simp only [hf, ↓reduceIte, StepExt]; exact terminate_recs_ext k
+    · simp only [hf, Bool.false_eq_true, ↓reduceIte]
+      by_cases hr : isTerminatedRecordString buf = true
+      · simp only [hr, ↓reduceIte]
+        cases rawRecord buf.dropLast with
+        | none => trivial
+        | some toks =>
+          simp only
+          by_cases hf2 : (k.terminate.addRecord toks).finished = true
+          · simp only [hf2, ↓reduceIte, StepExt]; exact ⟨[toks], by rw [addRecord_records, terminate_records]⟩
+          · simp only [hf2, Bool.false_eq_true, ↓reduceIte, StepExt]; exact ⟨[toks], by rw [addRecord_records, terminate_records]⟩
+      · simp only [hr, Bool.false_eq_true, ↓reduceIte, StepExt]; exact terminate_recs_ext k
+  · simp only [ht, Bool.false_eq_true, ↓reduceIte, false_and]
+    by_cases hr : isTerminatedRecordString buf = true
+    · simp only [hr, ↓reduceIte]
+      cases rawRecord buf.dropLast with
+      | none => trivial
+      | some toks =>
+        simp only
+        by_cases hf2 : (k.addRecord toks).finished = true
+        · simp only [hf2, ↓reduceIte, StepExt]; exact ⟨[toks], by rw [addRecord_records]⟩
+        · simp only [hf2, Bool.false_eq_true, ↓reduceIte, StepExt]; exact ⟨[toks], by rw [addRecord_records]⟩
+    · simp only [hr, Bool.false_eq_true, ↓reduceIte, StepExt]; exact ⟨[], by simp⟩
+
+theorem feedLine_ext (recog : Bytes → Bool) (k : Kw) (buf gap line : Bytes) : StepExt k (feedLine recog k buf gap line) := by
+  unfold feedLine
+  by_cases h1 : line.isEmpty = true
+  · simp only [h1, ↓reduceIte, StepExt]; exact ⟨[], by simp⟩
+  · simp only [h1, Bool.false_eq_true, ↓reduceIte]
+    by_cases h2 : (k.canComplete && recog (makeDeckName line)) = true
+    · simp only [h2, ↓reduceIte, StepExt]; exact terminate_recs_ext k
+    · simp only [h2, Bool.false_eq_true, ↓reduceIte]; exact afterExtend_ext k _
+
+theorem feedLine_recs_ext (recog : Bytes → Bool) (k : Kw) (buf gap line : Bytes) :
+    (∀ k2 b g, feedLine recog k buf gap line = .cont k2 b g → ∃ add, k2.records = k.records ++ add) ∧
+    (∀ k2 u, feedLine recog k buf gap line = .done k2 u → ∃ add, k2.records = k.records ++ add) := by
+  have h := feedLine_ext recog k buf gap line
+  refine ⟨fun k2 b g e => by rw [e] at h; exact h, fun k2 u e => by rw [e] at h; exact h⟩
+
+theorem feedLine_setRecs (recog : Bytes → Bool) (k : Kw) (r : List (List Bytes)) (h : r.length = k.records.length)
+    (buf gap line : Bytes) :
+    feedLine recog (k.setRecs r) buf gap line =
+      (feedLine recog k buf gap line).mapRecs (fun kf => kf.setRecs (r ++ kf.records.drop k.records.length)) := by
+  unfold feedLine
+  rw [canComplete_setRecs k r h]
+  by_cases h1 : line.isEmpty = true
+  · simp only [h1, ↓reduceIte, Step.mapRecs]
+    congr 1
+    simp [Kw.setRecs]
+  · simp only [h1, Bool.false_eq_true, ↓reduceIte]
+    by_cases h2 : (k.canComplete && recog (makeDeckName line)) = true
+    · simp only [h2, ↓reduceIte, Step.mapRecs, terminate_setRecs k r h]
+      congr 1
+      rw [terminate_records]; simp [Kw.setRecs]
+    · simp only [h2, Bool.false_eq_true, ↓reduceIte]
+      have : (k.setRecs r).raw = k.raw := rfl
+      rw [this]
+      exact afterExtend_setRecs k r h _
+
+/-- **bisimulation**: the line loop on a raw keyword whose records were replaced (same
+number of them) runs exactly like the loop on the original — same lines consumed, same
+termination — and the records it adds are the same. -/
+theorem feedLines_setRecs (recog : Bytes → Bool) : ∀ (lines : List Bytes) (k : Kw) (r : List (List Bytes))
+    (buf gap : Bytes), r.length = k.records.length →
+    feedLines recog (k.setRecs r) buf gap lines =
+      (feedLines recog k buf gap lines).map (fun p => (p.1.setRecs (r ++ p.1.records.drop k.records.length), p.2)) ∧
+    (∀ kf rest, feedLines recog k buf gap lines = some (kf, rest) → ∃ add, kf.records = k.records ++ add) := by
+  intro lines
+  induction lines with
+  | nil =>
+    intro k r buf gap h
+    simp only [feedLines, canComplete_setRecs k r h]
+    by_cases hc : k.canComplete = true
+    · simp only [hc, ↓reduceIte, terminate_setRecs k r h]
+      have hf : (k.terminate.setRecs r).finished = k.terminate.finished := rfl
+      rw [hf]
+      by_cases hfin : k.terminate.finished = true
+      · simp only [hfin, ↓reduceIte, Option.map_some]
+        refine ⟨?_, ?_⟩
+        · rw [terminate_records]; simp
+        · intro kf rest e
+          injection e with e
+          injection e with e1 _
+          subst e1
+          exact terminate_recs_ext k
+      · simp only [hfin, Bool.false_eq_true, ↓reduceIte, Option.map_none]
+        exact ⟨trivial, fun kf rest e => by cases e⟩
+    · simp only [hc, Bool.false_eq_true, ↓reduceIte]
+      have hf : (k.setRecs r).finished = k.finished := rfl
+      rw [hf]
+      by_cases hfin : k.finished = true
+      · simp only [hfin, ↓reduceIte, Option.map_some]
+        refine ⟨by simp [Kw.setRecs], ?_⟩
+        intro kf rest e
+        injection e with e
+        injection e with e1 _
+        subst e1
+        exact ⟨[], by simp⟩
+      · simp only [hfin, Bool.false_eq_true, ↓reduceIte, Option.map_none]
+        exact ⟨trivial, fun kf rest e => by cases e⟩
+  | cons line rest ih =>
+    intro k r buf gap h
+    by_cases hm : line = eofMark
+    · subst hm
+      simp only [feedLines_cons_mark]
+      by_cases hb : buf.isEmpty = true
+      · simp only [hb, ↓reduceIte]; exact ih k r buf gap h
+      · simp only [hb, Bool.false_eq_true, ↓reduceIte, Option.map_none]
+        exact ⟨trivial, fun kf rest e => by cases e⟩
+    · rw [feedLines_cons recog (k.setRecs r) buf gap line rest hm, feedLines_cons recog k buf gap line rest hm,
+        feedLine_setRecs recog k r h buf gap line]
+      obtain ⟨hext1, hext2⟩ := feedLine_recs_ext recog k buf gap line
+      cases hs : feedLine recog k buf gap line with
+      | cont k2 b g =>
+        obtain ⟨add, hadd⟩ := hext1 k2 b g hs
+        simp only [Step.mapRecs]
+        have hlen : (r ++ k2.records.drop k.records.length).length = k2.records.length := by
+          rw [hadd]; simp [h]
+        obtain ⟨ih1, ih2⟩ := ih k2 (r ++ k2.records.drop k.records.length) b g hlen
+        refine ⟨?_, ?_⟩
+        · rw [ih1]
+          cases hfl : feedLines recog k2 b g rest with
+          | none => rfl
+          | some p =>
+            obtain ⟨kf, rs⟩ := p
+            obtain ⟨add2, hadd2⟩ := ih2 kf rs hfl
+            simp only [Option.map_some, Option.some.injEq, Prod.mk.injEq, and_true]
+            congr 1
+            rw [hadd2, hadd]
+            simp [List.append_assoc]
+        · intro kf rs e
+          obtain ⟨add2, hadd2⟩ := ih2 kf rs e
+          exact ⟨add ++ add2, by rw [hadd2, hadd, List.append_assoc]⟩
+      | done k2 u =>
+        obtain ⟨add, hadd⟩ := hext2 k2 u hs
+        simp only [Step.mapRecs, Option.map_some]
+        exact ⟨trivial, fun kf rs e => by
+          injection e with e; injection e with e1 _; subst e1; exact ⟨add, hadd⟩⟩
+      | err =>
+        simp only [Step.mapRecs, Option.map_none]
+        exact ⟨trivial, fun kf rs e => by cases e⟩
+
+/-! ### a record of a keyword replaced by another spelling -/
+
+/-- the lines `X` are one record of the raw keyword `k`, with tokens `t`: fed to the line
+loop they add exactly that record, whatever follows. -/
+def OneRec (recog : Bytes → Bool) (k : Kw) (X : List Bytes) (t : List Bytes) : Prop :=
+  ∀ rest, feedLines recog k [] [] (X ++ rest) =
+    if (k.addRecord t).finished then some (k.addRecord t, rest) else feedLines recog (k.addRecord t) [] [] rest
+
+theorem parseRecords_congr_at (cv : Conv) (schemas : List (List Item)) (alt : Bool) (t t' : List Bytes) (post : List (List Bytes)) :
+    ∀ (pre : List (List Bytes)) (i : Nat),
+      (∀ items, schemaOf schemas alt (i + pre.length) = some items → parseItems cv items t = parseItems cv items t') →
+      parseRecords cv schemas alt i (pre ++ t :: post) = parseRecords cv schemas alt i (pre ++ t' :: post) := by
+  intro pre
+  induction pre with
+  | nil =>
+    intro i h
+    simp only [List.nil_append, parseRecords]
+    cases hs : schemaOf schemas alt i with
+    | none => rfl
+    | some items =>
+      simp only
+      rw [h items (by simpa using hs)]
+  | cons p pre ih =>
+    intro i h
+    simp only [List.cons_append, parseRecords]
+    cases hs : schemaOf schemas alt i with
+    | none => rfl
+    | some items =>
+      simp only
+      cases parseItems cv items p with
+      | none => rfl
+      | some r =>
+        simp only
+        rw [ih (i + 1) (by
+          intro items' h'
+          apply h items'
+          have e : i + (p :: pre).length = i + 1 + pre.length := by simp; omega
+          rw [e]; exact h')]
+
+/-- the two raw keywords a record in two spellings leads to, after the same following lines. -/
+theorem feedLines_two_spellings (recog : Bytes → Bool) (k : Kw) (X X' : List Bytes) (t t' : List Bytes)
+    (hX : OneRec recog k X t) (hX' : OneRec recog k X' t') (ht : (t.length > 0) ↔ (t'.length > 0)) (rest : List Bytes) :
+    (feedLines recog k [] [] (X ++ rest) = none ∧ feedLines recog k [] [] (X' ++ rest) = none) ∨
+    ∃ kf rs add, feedLines recog k [] [] (X ++ rest) = some (kf, rs) ∧
+      feedLines recog k [] [] (X' ++ rest) = some (kf.setRecs (k.records ++ t' :: add), rs) ∧
+      kf.records = k.records ++ t :: add := by
+  have hadd : k.addRecord t' = (k.addRecord t).setRecs (k.records ++ [t']) := by
+    have := addRecord_setRecs k k.records t t' rfl ht
+    rw [setRecs_self] at this
+    exact this
+  have hfin : (k.addRecord t').finished = (k.addRecord t).finished := by rw [hadd]; rfl
+  rw [hX rest, hX' rest, hfin]
+  by_cases hf : (k.addRecord t).finished = true
+  · right
+    simp only [hf, ↓reduceIte]
+    refine ⟨k.addRecord t, rest, [], rfl, ?_, by rw [addRecord_records]⟩
+    rw [hadd]
+  · simp only [hf, Bool.false_eq_true, ↓reduceIte]
+    have hlen : (k.records ++ [t']).length = (k.addRecord t).records.length := by rw [addRecord_records]; simp
+    obtain ⟨h1, h2⟩ := feedLines_setRecs recog rest (k.addRecord t) (k.records ++ [t']) [] [] hlen
+    rw [hadd, h1]
+    cases hfl : feedLines recog (k.addRecord t) [] [] rest with
+    | none => left; exact ⟨rfl, rfl⟩
+    | some p =>
+      obtain ⟨kf, rs⟩ := p
+      obtain ⟨add, hadd2⟩ := h2 kf rs hfl
+      right
+      refine ⟨kf, rs, add, rfl, ?_, by rw [hadd2, addRecord_records]; simp⟩
+      simp only [Option.map_some, Option.some.injEq, Prod.mk.injEq, and_true]
+      congr 1
+      rw [hadd2, addRecord_records]
+      simp
+
+
+end OpmVerif.RawKw
+
 namespace OpmVerif.Deck
 open OpmVerif.Lex OpmVerif.Tok OpmVerif.Scan OpmVerif.RawKw OpmVerif.DeckWrite
 
@@ -495,6 +825,94 @@ theorem parsesText_prefix {n : Nat} {al' : List (Bytes × Bytes)} {deck' : DeckT
     rw [List.append_assoc, hP f (X ++ [10])]
     exact hf
 
+
+/-- a record written by `DeckRecord::write` (any chunking) is one record of the keyword. -/
+theorem oneRec_written (k : Kw) (cs : List (List Bytes)) (hne : cs ≠ []) (hok : RecOk recog k.raw cs) :
+    OneRec recog k (recLines cs) cs.flatten := by
+  intro rest
+  have h := feedLines_record recog k cs rest hok
+  have hfl : cs.flatten ≠ [] := by
+    cases cs with
+    | nil => exact absurd rfl hne
+    | cons c cs' =>
+      have := hok.ne c (by simp)
+      cases c with
+      | nil => exact absurd rfl this
+      | cons _ _ => simp
+  rw [stepRec_nonempty k _ hfl] at h
+  exact h
+
+/-- any single cleaned line `x /…` of an ordinary keyword — `x` in whatever layout, whatever
+text behind the slash — is one record with the tokens of `x`. -/
+theorem oneRec_line (k : Kw) (hraw : k.raw = false) (x junk : Bytes) (t : List Bytes) (hx : x ≠ [])
+    (hbal : BalancedNoSlash x) (htok : rawRecord x = some t) (hnl : ∀ b ∈ x ++ 47 :: junk, b ≠ 10)
+    (hnk : (k.canComplete && recog (makeDeckName (x ++ 47 :: junk))) = false) :
+    OneRec recog k [x ++ 47 :: junk] t := by
+  intro rest
+  have hm : x ++ 47 :: junk ≠ eofMark := by
+    intro e
+    exact hnl 10 (by rw [e]; simp [eofMark]) rfl
+  have hne : (x ++ 47 :: junk).isEmpty = false := by cases x <;> simp
+  have hcut : delAfterFirstSlash (x ++ 47 :: junk) = x ++ [47] := delAfterFirstSlash_append x junk hbal
+  have hnt : isTerminator (x ++ [47]) = false := by
+    unfold isTerminator
+    cases x with
+    | nil => exact absurd rfl hx
+    | cons c r => cases r <;> simp
+  have hrec : isTerminatedRecordString (x ++ [47]) = true := by
+    unfold isTerminatedRecordString
+    rw [List.getLast?_append]; simp
+  have hdl : (x ++ [47]).dropLast = x := List.dropLast_concat
+  simp only [List.cons_append, List.nil_append]
+  rw [feedLines_cons recog k [] [] _ rest hm]
+  simp only [feedLine, hne, Bool.false_eq_true, ↓reduceIte, hnk, delAfterSlash, hraw, hcut, extendBuf, List.isEmpty_nil]
+  rw [afterExtend_rec_some k _ t hnt hrec (by rw [hdl]; exact htok)]
+  by_cases hf : (k.addRecord t).finished = true
+  · simp [hf]
+  · simp [hf]
+
+
+/-- a one-line record broken in two at a separator run outside quotes (the conditions of
+`assemble_linebreak`) is still that record. -/
+theorem oneRec_linebreak (k : Kw) (hraw : k.raw = false) (a sp b : Bytes) (t : List Bytes)
+    (hane : a ≠ []) (hbne : b ≠ []) (hs : sp ≠ []) (hsep : ∀ c ∈ sp, isSep c = true)
+    (ha : BalancedNoSlash a) (hout : OutsideP (extendBuf [] [] a))
+    (hra : (k.canComplete && recog (makeDeckName a)) = false)
+    (hrb : (k.canComplete && recog (makeDeckName b)) = false)
+    (hma : a ≠ eofMark) (hmb : b ≠ eofMark)
+    (h : OneRec recog k [a ++ sp ++ b] t) : OneRec recog k [a, b] t := by
+  intro rest
+  have := assemble_linebreak recog k hraw [] [] a sp b rest hane hbne hs hsep ha hout hra hrb hma hmb
+  simp only [List.cons_append, List.nil_append] at this ⊢
+  rw [← this]
+  exact h rest
+
+/-- one round of the keyword loop on a keyword one of whose records is written in two ways. -/
+theorem parseStep_record_spelling (al : List (Bytes × Bytes)) (deck : DeckT) (nm : Bytes) (name : Bytes) (d : KwDef)
+    (k0 k1 : Kw) (L0 X X' : List Bytes) (t t' : List Bytes) (rest : List Bytes)
+    (hne : nm.isEmpty = false) (hm : nm ≠ eofMark) (hns : isSkipName (makeDeckName nm) = false)
+    (hnes : (makeDeckName nm == nameENDSKIP) = false) (hvalid : validDeckName (makeDeckName nm) = true)
+    (hnt : (makeDeckName nm == nameTITLE) = false)
+    (hfind : findKw tbl (makeDeckName nm) = some (name, d)) (hraw : newRaw d deck = some k0) (hk0 : k0.finished = false)
+    (hnp : (name == namePATHS) = false) (hni : (name == nameINCLUDE) = false) (hdbl : d.dbl = false)
+    (hL0 : ∀ rest, feedLines recog k0 [] [] (L0 ++ rest) = feedLines recog k1 [] [] rest)
+    (hX : OneRec recog k1 X t) (hX' : OneRec recog k1 X' t') (ht : (t.length > 0) ↔ (t'.length > 0))
+    (hparse : ∀ items, schemaOf d.schemas d.alt k1.records.length = some items →
+      parseItems cv items t = parseItems cv items t') :
+    parseStep cv tbl recog files al deck (nm :: (L0 ++ (X ++ rest))) =
+      parseStep cv tbl recog files al deck (nm :: (L0 ++ (X' ++ rest))) := by
+  simp only [parseStep, hne, Bool.false_eq_true, ↓reduceIte, hm, hns, hnes, hvalid, Bool.not_true, hfind, hraw,
+    keywordRes, hk0, hnt, hL0]
+  rcases feedLines_two_spellings recog k1 X X' t t' hX hX' ht rest with ⟨h1, h2⟩ | ⟨kf, rs, add, h1, h2, h3⟩
+  · rw [h1, h2]
+  · rw [h1, h2]
+    simp only [dispatch]
+    have hf : (kf.setRecs (k1.records ++ t' :: add)).finished = kf.finished := rfl
+    have hr : (kf.setRecs (k1.records ++ t' :: add)).records = k1.records ++ t' :: add := rfl
+    rw [hf, hr, h3]
+    simp only [hnp, hni, hdbl, Bool.false_eq_true, ↓reduceIte]
+    rw [parseRecords_congr_at cv d.schemas d.alt t t' add k1.records 0 (by simpa using hparse)]
+
 /-- **`RelayoutDeck`**: the closure — reflexive, symmetric, transitive, in any context — of
 deck-level rewrites of a text:
 
@@ -505,12 +923,13 @@ deck-level rewrites of a text:
 * `kwname` the keyword line may be written in any case and followed by any text
            (same `make_deck_name`);
 * `incl`   a run of whole keywords — text whose lines the loop consumes as whole rounds —
-           may be moved into an INCLUDE file.
-
-Not in the closure (proved below the deck level only): rewrites inside the records of a
-keyword — separator runs and line breaks between items, text after the slash, star
-contraction/expansion, early record end (`relayout_compose`, `assemble_linebreak`,
-`blank_line_inside_keyword`, `after_slash_ignored`). -/
+           may be moved into an INCLUDE file;
+* `record` inside a keyword (ordinary, not double-record; any size class), behind any number of
+           earlier records: the text of ONE record may be replaced by any other text that is
+           one record (`OneRec`) whose tokens parse to the same items under the schema of that
+           position — separator runs, text after the slash, star contraction/expansion, early
+           record end (via `relayout_compose`), the writer's line split (`oneRec_written`); the
+           keyword assembly after it is unaffected (bisimulation `feedLines_setRecs`). -/
 inductive RelayoutDeck : Bytes → Bytes → Prop where
   | refl (t : Bytes) : RelayoutDeck t t
   | symm {t u : Bytes} : RelayoutDeck t u → RelayoutDeck u t
@@ -524,6 +943,19 @@ inductive RelayoutDeck : Bytes → Bytes → Prop where
       AtBoundary cv tbl recog files n [] [] P al' deck' → (∀ b ∈ l, b ≠ 10) → (∀ b ∈ l', b ≠ 10) →
       cleanLine l ≠ [] → cleanLine l' ≠ [] → makeDeckName (cleanLine l) = makeDeckName (cleanLine l') →
       RelayoutDeck (P ++ (l ++ 10 :: R)) (P ++ (l' ++ 10 :: R))
+  | record (n : Nat) (al' : List (Bytes × Bytes)) (deck' : DeckT) (P l T0 TX TX' R : Bytes) (name : Bytes) (d : KwDef)
+      (k0 k1 : Kw) (t t' : List Bytes) :
+      AtBoundary cv tbl recog files n [] [] P al' deck' → (∀ b ∈ l, b ≠ 10) → cleanLine l ≠ [] →
+      isSkipName (makeDeckName (cleanLine l)) = false → (makeDeckName (cleanLine l) == nameENDSKIP) = false →
+      validDeckName (makeDeckName (cleanLine l)) = true → (makeDeckName (cleanLine l) == nameTITLE) = false →
+      findKw tbl (makeDeckName (cleanLine l)) = some (name, d) → newRaw d deck' = some k0 → k0.finished = false →
+      (name == namePATHS) = false → (name == nameINCLUDE) = false → d.dbl = false →
+      (T0 = [] ∨ T0.getLast? = some 10) → TX.getLast? = some 10 → TX'.getLast? = some 10 →
+      (∀ rest, feedLines recog k0 [] [] (linesOf T0 ++ rest) = feedLines recog k1 [] [] rest) →
+      OneRec recog k1 (linesOf TX) t → OneRec recog k1 (linesOf TX') t' → ((t.length > 0) ↔ (t'.length > 0)) →
+      (∀ items, schemaOf d.schemas d.alt k1.records.length = some items →
+        parseItems cv items t = parseItems cv items t') →
+      RelayoutDeck (P ++ (l ++ 10 :: (T0 ++ (TX ++ R)))) (P ++ (l ++ 10 :: (T0 ++ (TX' ++ R))))
   | incl (n m : Nat) (al' al'' : List (Bytes × Bytes)) (deck' deck'' : DeckT) (P path content R : Bytes) :
       AtBoundary cv tbl recog files n [] [] P al' deck' → lookup tbl nameINCLUDE = some includeDef →
       files al' path = some content → (∀ c ∈ path, c ≠ 39) → LineSafe (quoted path) → NoNL (quoted path) →
@@ -543,17 +975,13 @@ theorem parseStep_kwname (al : List (Bytes × Bytes)) (deck : DeckT) (c c' : Byt
   have he' : c'.isEmpty = false := by cases c' <;> simp_all
   simp only [parseStep, he, he', hm, hm', hdn, Bool.false_eq_true, ↓reduceIte]
 
-/-- **`relayout_deck`** (partial: the rules above) — every derivation of `RelayoutDeck`, i.e.
-every composition of the deck-level rewrites, forwards or backwards, in any context, preserves
-what `Parser::parseString` returns: the same Deck — keyword sequence, records, values and
-default flags.
+/-- **`relayout_deck`** (partial) — every derivation of `RelayoutDeck`, i.e. every composition
+of the deck-level rewrites, forwards or backwards, in any context, preserves what
+`Parser::parseString` returns: the same Deck — keyword sequence, records, values and default
+flags — or no Deck on either side.
 
-Full shape, not proved: the same closure with the record-internal rules (separator runs and
-line breaks between items, text after the slash, star contraction/expansion, early record
-end) applied to a record at any place of a deck; those are proved for one record
-(`relayout_compose`) and for the line loop of one keyword (`assemble_linebreak`,
-`blank_line_inside_keyword`), and lifting them needs the bisimulation "two raw keywords that
-differ only in the token spelling of a record behave alike". -/
+Full shape, not proved: the rule `record` for double-record keywords and for the line of
+TITLE, and rewrites of several records at once (they are reached by `trans`). -/
 theorem relayout_deck_partial {t u : Bytes} (h : RelayoutDeck cv tbl recog files t u) (r : DeckT) :
     ParsesText cv tbl recog files t r ↔ ParsesText cv tbl recog files u r := by
   induction h with
@@ -603,6 +1031,37 @@ theorem relayout_deck_partial {t u : Bytes} (h : RelayoutDeck cv tbl recog files
     have hstep := parseStep_kwname cv tbl recog files al' deck' (cleanLine l) (cleanLine l') (linesOf (R ++ [10]))
       hne hne' hm hm' hdn
     rw [e1, e2]
+    unfold Parses
+    constructor
+    · rintro ⟨f, hf⟩
+      cases f with
+      | zero => simp [parseLoop] at hf
+      | succ f => exact ⟨f + 1, by rw [parseLoop, ← hstep]; rw [parseLoop] at hf; exact hf⟩
+    · rintro ⟨f, hf⟩
+      cases f with
+      | zero => simp [parseLoop] at hf
+      | succ f => exact ⟨f + 1, by rw [parseLoop, hstep]; rw [parseLoop] at hf; exact hf⟩
+  | record n al' deck' P l T0 TX TX' R name d k0 k1 t t' hP hl hne hns hnes hvalid hnt hfind hraw hk0 hnp hni hdbl
+      hT0 hTX hTX' hL0 hX hX' ht hparse =>
+    rw [parsesText_prefix cv tbl recog files hP, parsesText_prefix cv tbl recog files hP]
+    have hlines : ∀ (T : Bytes), T.getLast? = some 10 →
+        linesOf (l ++ 10 :: (T0 ++ (T ++ R)) ++ [10]) = cleanLine l :: (linesOf T0 ++ (linesOf T ++ linesOf (R ++ [10]))) := by
+      intro T hT
+      unfold linesOf
+      have e : l ++ 10 :: (T0 ++ (T ++ R)) ++ [10] = l ++ 10 :: (T0 ++ (T ++ (R ++ [10]))) := by simp [List.append_assoc]
+      rw [e, fastClean_line l _ hl, splitLines_line _ _ (cleanLine_noNL l hl)]
+      congr 1
+      have h1 := linesOf_append_endsNL T0 (T ++ (R ++ [10])) hT0
+      have h2 := linesOf_append_endsNL T (R ++ [10]) (Or.inr hT)
+      unfold linesOf at h1 h2
+      rw [h1, h2]
+    have hm : cleanLine l ≠ eofMark := by
+      intro e; exact cleanLine_noNL l hl 10 (by rw [e]; simp [eofMark]) rfl
+    have hempty : (cleanLine l).isEmpty = false := by cases h : cleanLine l <;> simp_all
+    have hstep := parseStep_record_spelling cv tbl recog files al' deck' (cleanLine l) name d k0 k1 (linesOf T0)
+      (linesOf TX) (linesOf TX') t t' (linesOf (R ++ [10])) hempty hm hns hnes hvalid hnt hfind hraw hk0 hnp hni hdbl
+      hL0 hX hX' ht hparse
+    rw [hlines TX hTX, hlines TX' hTX']
     unfold Parses
     constructor
     · rintro ⟨f, hf⟩
